@@ -123,6 +123,23 @@ theorem C19_shadow_innermost_partial (f : Die) (pc n : Nat) (hns : NoShadow f pc
   subst this
   exact ⟨rfl, Nat.le_refl _⟩
 
+
+/-- repair candidate (not what the code does): take the LAST live binding of the name in traversal order -/
+def localVariableRepaired (f : Die) (pc n : Nat) : Option Entry := (candidates f pc n).getLast?
+
+/-- **C19_shadow_innermost_repaired.** With that one change the clause holds in full: the binding shown is in scope,
+    carries the name, and no live binding of the name is nested deeper. -/
+theorem C19_shadow_innermost_repaired (f : Die) (pc n : Nat) (v : Entry) (h : localVariableRepaired f pc n = some v) :
+    (InScope f pc v ∧ v.2.info.name = some n) ∧
+    ∀ w, InScope f pc w → w.2.info.name = some n → w.1.length ≤ v.1.length := by
+  unfold localVariableRepaired at h
+  have hv : v ∈ candidates f pc n := List.mem_of_getLast? h
+  refine ⟨(isCandidate_iff f pc n v).mp (List.mem_filter.mp hv), ?_⟩
+  intro w hw hn
+  exact getLast_deepest (depthSorted_filter _ (bfs_depthSorted f)) h w
+    (List.mem_filter.mpr ((isCandidate_iff f pc n w).mpr ⟨hw, hn⟩))
+
+
 /-- witness: `fn f() { let x = 1; { let x = 2; <pc 0x30> } }` as rustc lays it out -/
 def shadowWitness : Die :=
   .node { id := 0x10, tag := .subprogram, ranges := [⟨0x00, 0x80⟩] } [
@@ -157,6 +174,65 @@ theorem C19_shadow_innermost_counterexample : ¬ C19_shadow_innermost_full := by
   intro h
   have := h shadowWitness 0x30 0x78 outerX shadowWitness_lookup innerX innerX_inScope rfl
   simp [innerX, outerX] at this
+
+
+/-! ## 2b. Outer frames: the scope is taken at the RETURN address -/
+
+/-- The property speaks of "the current location of the selected frame"; for an outer frame that is the call
+    instruction, i.e. some address in `[ra - len, ra)`, while the code evaluates the scope at the return address `ra`.
+    Full statement: both give the same listing. -/
+def C19_outer_frame_scope_full : Prop :=
+  ∀ (f : Die) (ra : Nat) (e : Entry), 0 < ra → (e ∈ localVariables f ra ↔ e ∈ localVariables f (ra - 1))
+
+/-- named decidable hypothesis: the return address is not a boundary (begin or end) of a scope range of the function -/
+def NotAtScopeEdge (f : Die) (ra : Nat) : Bool :=
+  (descP [] f).all fun e => match nearestScope e.1 with
+    | some i => i.ranges.all fun r => decide (r.hi ≠ ra) && decide (r.lo ≠ ra)
+    | none => true
+
+/-- **C19_outer_frame_scope_partial.** Unless the return address is the first address of a block or the address
+    right after its last instruction, an outer frame lists what is in scope at its call instruction. -/
+theorem C19_outer_frame_scope_partial (f : Die) (ra : Nat) (hra : 0 < ra) (h : NotAtScopeEdge f ra = true) (e : Entry) :
+    e ∈ localVariables f ra ↔ e ∈ localVariables f (ra - 1) := by
+  rw [C19_locals_in_scope, C19_locals_in_scope]
+  unfold InScope
+  constructor
+  · rintro ⟨hm, ht, hs⟩
+    refine ⟨hm, ht, ?_⟩
+    intro i hi
+    obtain ⟨r, hr, h1, h2⟩ := hs i hi
+    have := List.all_eq_true.mp h e hm
+    rw [hi] at this
+    have := List.all_eq_true.mp this r hr
+    simp at this
+    exact ⟨r, hr, by omega, by omega⟩
+  · rintro ⟨hm, ht, hs⟩
+    refine ⟨hm, ht, ?_⟩
+    intro i hi
+    obtain ⟨r, hr, h1, h2⟩ := hs i hi
+    have := List.all_eq_true.mp h e hm
+    rw [hi] at this
+    have := List.all_eq_true.mp this r hr
+    simp at this
+    exact ⟨r, hr, by omega, by omega⟩
+
+/-- **C19_outer_frame_scope_counterexample.** `{ let x = 2; callee(x) }` with the call as the block's last
+    instruction (block `[0x20, 0x50)`, return address 0x50): in the caller's frame the inner `x` is not listed. -/
+theorem C19_outer_frame_scope_counterexample : ¬ C19_outer_frame_scope_full := by
+  intro h
+  have h1 : innerX ∈ localVariables shadowWitness (0x50 - 1) := by
+    rw [C19_locals_in_scope]
+    refine ⟨innerX_inScope.1, rfl, ?_⟩
+    intro i hi
+    simp [nearestScope, innerX] at hi
+    subst hi
+    exact ⟨⟨0x20, 0x50⟩, by simp, by decide, by decide⟩
+  have h2 := (h shadowWitness 0x50 innerX (by decide)).mpr h1
+  rw [C19_locals_in_scope] at h2
+  obtain ⟨r, hr, h3, h4⟩ := h2.2.2 ⟨0x30, .block, none, [⟨0x20, 0x50⟩]⟩ (by simp [nearestScope, innerX])
+  simp at hr
+  subst hr
+  simp at h4
 
 /-! ## 3. Location lists -/
 
@@ -309,6 +385,8 @@ theorem C19_frame_values_distinct (regs0 : List (Option Nat)) (cfas : List Nat) 
 #guard (localVariables shadowWitness 0x10).map (·.2.info.id) == [0x21]       -- inner block not entered
 #guard (localVariables shadowWitness 0x04).map (·.2.info.id) == []           -- before the outer block
 #guard (localVariable shadowWitness 0x10 0x78).map (·.2.info.id) == some 0x21
+#guard (localVariableRepaired shadowWitness 0x30 0x78).map (·.2.info.id) == some 0x31
+#guard (localVariableRepaired shadowWitness 0x10 0x78).map (·.2.info.id) == some 0x21
 #guard NoShadow shadowWitness 0x10 0x78 == true
 #guard NoShadow shadowWitness 0x30 0x78 == false
 #guard dwarfMapValue labelledMap 5 == some 4       -- DWARF 5 = rdi = field 4
@@ -327,6 +405,8 @@ example : localVariable shadowWitness 0x10 0x78 = some outerX := by
   simp [localVariable, bfs, shadowWitness, Die.size, sizeList, bfsAux, isCandidate, validAt, walkUp, Info.isScope, Die.info,
     inRanges, Range.contains, outerX]
 example : NotAtEntryEnd accLoclist 0xba10 = true := by decide
+example : NotAtScopeEdge shadowWitness 0x30 = true := by
+  simp [NotAtScopeEdge, shadowWitness, descP, descPL, nearestScope]
 example : selectEntry accLoclist 0xba10 = some ⟨0xba00, 0xba15, .const 7⟩ := by decide
 example : (frameRegs [] [0x7000, 0x7040] 2).regs[7]? = some (some 0x7040) := by decide
 example : evalLoc (frameRegs [] [0x7000, 0x7040] 1) 7 (.fbreg 8) ≠ evalLoc (frameRegs [] [0x7000, 0x7040] 2) 7 (.fbreg 8) :=
